@@ -546,15 +546,16 @@ def merge_file_level(
         old_value, field = fields[name]
 
         try:
+            # validators may coerce the value, by setting it on the instance
+            setattr(new, name, value)
             validate_field(new, field, value)
         except Exception as exc:
+            setattr(new, name, old_value)
             warning(MystWarnings.MD_TOPMATTER, str(exc))
             continue
 
         if field.metadata.get("merge_topmatter"):
-            value = {**old_value, **value}
-
-        setattr(new, name, value)
+            setattr(new, name, {**old_value, **getattr(new, name)})
 
     return new
 
